@@ -92,8 +92,28 @@ def kw(rnd, s):
     return s.upper() if m == 0 else s.lower() if m == 1 else s.capitalize()
 
 
+# string mode: the same abstract histories over VARCHAR columns.  The integers of the model are the RANKS of the strings below in DuckDB's
+# default (binary = code point) collation, so =, <>, <, <=, >, >=, IN and EQUAL_NULL on the strings are exactly the integer comparisons of the
+# model.  The strings differ only in letter case, a trailing space or an accent.
+SPOOL = {-2: "ABC", -1: "Abc", 0: "abc", 1: "abc ", 2: "abd", 3: "\u00e1bc", 100: "\u00e1bd"}
+assert [SPOOL[k] for k in sorted(SPOOL)] == sorted(SPOOL.values())
+SRANK = {v: k for k, v in SPOOL.items()}
+_STRINGS = [False]
+
+
 def sval(v):
-    return "NULL" if v is None else str(v)
+    if v is None:
+        return "NULL"
+    return "'" + SPOOL[v] + "'" if _STRINGS[0] else str(v)
+
+
+def no_arith(x):
+    """string mode has no `C + k`: such an expression becomes the bare column (done before the model sees the statement)"""
+    if isinstance(x, (list, tuple)):
+        if len(x) == 3 and x[0] == "A":
+            return ("C", x[1])
+        return type(x)(no_arith(y) for y in x)
+    return x
 
 
 def sexpr(rnd, e):
@@ -110,6 +130,12 @@ def spred(rnd, p):
         return {"t": "TRUE", "f": "FALSE", "u": "NULL"}[p[1]]
     if k == "c":
         op = OPS[p[2]] if p[2] != "ne" else rnd.choice(["<>", "!="])
+        if _STRINGS[0] and p[3][0] == "L" and p[3][1] is not None and p[2] in ("eq", "ne") and rnd.random() < 0.5:
+            # equality with a string literal in its other spellings
+            a, lit = sexpr(rnd, p[1]), sexpr(rnd, p[3])
+            if p[2] == "eq":
+                return rnd.choice([f"{a} {kw(rnd, 'in')} ({lit})", f"{a} {kw(rnd, 'like')} {lit}", f"{a} {kw(rnd, 'in')} ({lit}, {lit})"])
+            return rnd.choice([f"{a} {kw(rnd, 'not in')} ({lit})", f"{a} {kw(rnd, 'not like')} {lit}"])
         return f"{sexpr(rnd, p[1])} {op} {sexpr(rnd, p[3])}"
     if k == "n":
         return f"{sexpr(rnd, p[1])} {kw(rnd, 'is null')}"
@@ -192,6 +218,19 @@ def gzero_pred(rnd, arity):
     if m == 3:
         return ("c", ("C", rnd.randrange(arity)), "gt", ("L", 100))
     return ("!", ("or", ("k", "t"), gpred(rnd, arity, 2)))
+
+
+def string_sweep():
+    """every comparison operator against every pool string, and IN-style disjunctions, over a table holding the whole pool"""
+    rows = [[v, i % 6 - 2] for i, v in enumerate([-2, -1, 0, 1, 2, 3, None, 0, -2])]
+    out = []
+    for v in (-2, -1, 0, 1, 2, 3):
+        for op in OPS:
+            p = ("c", ("C", 0), op, ("L", v))
+            out.append(([(2, rows), (2, [])], [("I", 1, None, ("S", 0, None, p)), ("U", 0, [(1, ("L", 3))], p), ("D", 0, p)]))
+        out.append(([(2, rows), (2, [])], [("D", 0, ("or", ("c", ("C", 0), "eq", ("L", v)), ("c", ("L", (v + 3) % 6 - 2), "eq", ("C", 0)))),
+                                           ("U", 0, [(0, ("L", v))], ("!", ("e", ("C", 0), ("L", v))))]))
+    return out
 
 
 def _and_chain(p):
@@ -557,7 +596,7 @@ def _snapshot(cur, case):
         dbs = []
         for i in range(len(case["tables"])):
             cur.execute(f"select * from DB1.{sch}.{tn(i)}")
-            dbs.append([list(r) for r in cur.fetchall()])
+            dbs.append([[SRANK.get(v, v) if isinstance(v, str) else v for v in r] for r in cur.fetchall()])
         snap[sch] = dbs
     return snap
 
@@ -579,14 +618,17 @@ def _real_history(conn, conn_b, case):
     returned cursor is read only after the whole script ran."""
     tables, sqls = case["tables"], [_rename(case, q) for q in case["sqls"]]
     tn, cn = _names(case)
+    strings = bool(case.get("strings"))
+    ctype = "varchar" if strings else "int"
+    lit = (lambda v: "NULL" if v is None else "'" + SPOOL[v] + "'") if strings else sval
     cur = conn.cursor()
     for sch in ("S1", "S2"):
         for i in range(MAXT):
             cur.execute(f"drop table if exists DB1.{sch}.{tn(i)}")
         for i, (a, rows) in enumerate(tables):
-            cur.execute(f"create table DB1.{sch}.{tn(i)} (" + ", ".join(f"{cn(j)} int" for j in range(a)) + ")")
+            cur.execute(f"create table DB1.{sch}.{tn(i)} (" + ", ".join(f"{cn(j)} {ctype}" for j in range(a)) + ")")
             if rows:
-                cur.execute(f"insert into DB1.{sch}.{tn(i)} values " + ", ".join("(" + ", ".join(sval(v) for v in r) + ")" for r in rows))
+                cur.execute(f"insert into DB1.{sch}.{tn(i)} values " + ", ".join("(" + ", ".join(lit(v) for v in r) + ")" for r in rows))
     bcur = conn_b.cursor()
     bcur.execute("use schema s2")
     n = len(sqls)
@@ -693,11 +735,11 @@ def _check_history(chk, case, real, reply):
     spec, impl = json.loads(reply["spec"]), json.loads(reply["impl"])
     mode, nop = case.get("mode", "cursor"), bool(case.get("nop"))
     sqls = [_rename(case, q) for q in case["sqls"]]
-    rcase = {"kind": "hist", "tables": case["tables"], "stmts": case["stmts"], "sqls": case["sqls"], "mode": mode, "nop": nop}
+    rcase = {"kind": "hist", "tables": case["tables"], "stmts": case["stmts"], "sqls": case["sqls"], "mode": mode, "nop": nop, "strings": bool(case.get("strings"))}
     rcase.update({k: case[k] for k in ("known_key", "known_obs") if k in case})
-    how = ("conn.execute_string" if mode == "script" else "cursor.execute") + (f", instance with nop_regexes={NOP_REGEXES}" if nop else "")
+    how = ("VARCHAR columns, values shown as ranks of " + str([SPOOL[k] for k in sorted(SPOOL)]) + "; " if case.get("strings") else "") + ("conn.execute_string" if mode == "script" else "cursor.execute") + (f", instance with nop_regexes={NOP_REGEXES}" if nop else "")
     init = [_canon_rows(rows) for _, rows in case["tables"]]
-    chk.count(f"mode:{mode}{':nop_regexes' if nop else ''}")
+    chk.count(f"mode:{mode}{':nop_regexes' if nop else ''}{':varchar' if case.get('strings') else ''}")
     nontrivial = False
     for i, (s, sql) in enumerate(zip(case["stmts"], sqls)):
         so, io, ro = _canon_obs_model(spec["obs"][i]), _canon_obs_model(impl["obs"][i]), _canon_obs_real(real["obs"][i])
@@ -786,8 +828,15 @@ def _lines(items):
     return out
 
 
-def _mk_hist(rnd, tables, stmts, mode="cursor", nop=False):
-    return {"tables": tables, "stmts": stmts, "sqls": [sstmt(rnd, s) for s in stmts], "tok": tcase(tables, stmts), "mode": mode, "nop": nop}
+def _mk_hist(rnd, tables, stmts, mode="cursor", nop=False, strings=False):
+    if strings:
+        stmts = no_arith(stmts)
+    _STRINGS[0] = strings
+    try:
+        sqls = [sstmt(rnd, s) for s in stmts]
+    finally:
+        _STRINGS[0] = False
+    return {"tables": tables, "stmts": stmts, "sqls": sqls, "tok": tcase(tables, stmts), "mode": mode, "nop": nop, "strings": strings}
 
 
 def _cases(chk):
@@ -797,9 +846,11 @@ def _cases(chk):
     for t, s in sweep_cases():
         items.append(("hist", _mk_hist(rnd, t, s, "cursor")))
         items.append(("hist", _mk_hist(rnd, t, s, "script", nop=rnd.random() < 0.5)))
+    for t, s in string_sweep():
+        items.append(("hist", _mk_hist(rnd, t, s, "cursor", strings=True)))
     nh = 800 if chk.tier == "quick" else 10000
     for _ in range(nh):
-        items.append(("hist", _mk_hist(rnd, *ghistory(rnd), mode=rnd.choice(["cursor", "script"]), nop=rnd.random() < 0.3)))
+        items.append(("hist", _mk_hist(rnd, *ghistory(rnd), mode=rnd.choice(["cursor", "script"]), nop=rnd.random() < 0.3, strings=rnd.random() < 0.35)))
     items += [("ddl", c) for c in ddl_cases(chk)]
     items += [("bound", c) for c in bound_cases(chk)]
     return items
@@ -808,7 +859,7 @@ def _cases(chk):
 def _from_replay(case):
     kind = case["kind"]
     if kind == "hist":
-        c = {"tables": case["tables"], "stmts": case["stmts"], "sqls": case["sqls"], "mode": case.get("mode", "cursor"), "nop": bool(case.get("nop"))}
+        c = {"tables": case["tables"], "stmts": case["stmts"], "sqls": case["sqls"], "mode": case.get("mode", "cursor"), "nop": bool(case.get("nop")), "strings": bool(case.get("strings"))}
         c.update({k: case[k] for k in ("known_key", "known_obs") if k in case})
         c["tok"] = tcase(c["tables"], c["stmts"])
     else:
